@@ -27,6 +27,9 @@ pub const IDENT_NAMES_PLAIN: &[&str] = &["A", "B", "C", "D", "E"];
 pub const IDENT_NAMES_KEYWORDY: &[&str] =
     &["android", "order", "nothing", "allow", "offline", "integer", "stringent", "notes", "flt1", "of_x"];
 
+/// names that differ only by case
+pub const IDENT_NAMES_CASEY: &[&str] = &["sel", "Sel", "SEL", "a", "A", "sEl"];
+
 pub fn pick<'a>(list: &'a [&'a str], idx: u16) -> &'a str {
     list[(idx as usize * list.len()) >> 16]
 }
@@ -435,11 +438,15 @@ pub fn rule(opts: RuleOpts) -> BoxedStrategy<RuleSpec> {
     (
         prop::collection::vec(body(), 1..=4),
         shape(opts.quantifiers, opts.negation, opts.comparisons),
-        prop::bool::weighted(0.2),
+        0u8..10,
         any::<u16>(),
     )
-        .prop_map(move |(bodies, sh, keywordy, rot)| {
-            let pool: &[&str] = if keywordy { IDENT_NAMES_KEYWORDY } else { IDENT_NAMES_PLAIN };
+        .prop_map(move |(bodies, sh, style, rot)| {
+            let pool: &[&str] = match style {
+                0 | 1 => IDENT_NAMES_KEYWORDY,
+                2 => IDENT_NAMES_CASEY,
+                _ => IDENT_NAMES_PLAIN,
+            };
             let start = (rot as usize) % pool.len();
             let names: Vec<String> =
                 (0..bodies.len()).map(|i| pool[(start + i) % pool.len()].to_string()).collect();
